@@ -492,6 +492,20 @@ pub fn phantom_body(case: &ProgCase, obs: &mut Obs) -> Result<(), String> {
             phantom_sources += 1;
         }
     }
+    // a tuple keeps every element that is not PhantomData, in order (only those are erased)
+    for (k, root) in case.prog.roots.iter().enumerate() {
+        if let TE::Tuple(xs) = root {
+            let want = xs.iter().filter(|x| !x.is_phantom()).count() as u64;
+            if let Some(info) = &parsed.infos[k] {
+                if info["kind"] != "tuple" || info["arity"].as_u64() != Some(want) {
+                    return Err(format!("[sig:tuple-elements] a {}-tuple with {} elements that are not PhantomData is described as {info}", xs.len(), want));
+                }
+            }
+            if xs.iter().position(|e| e.is_phantom()).map_or(false, |i| xs[i + 1..].iter().any(|e| !e.is_phantom())) {
+                obs.class("tuple/phantom_before_real_element");
+            }
+        }
+    }
     // the member counts of every definition equal the declaration minus skipped and PhantomData members
     for (k, root) in case.prog.roots.iter().enumerate() {
         if let TE::Def(i, _) = root {
